@@ -278,7 +278,12 @@ def restore_scope(sim, spec, snapshot):
         if a.startswith('-'):
             continue
         path = a
-    return posixpath.normpath(posixpath.join(real + '/', path))
+    if not path:
+        return real
+    sc = posixpath.normpath(posixpath.join(real, path))
+    while sc.startswith('//'):
+        sc = sc[1:]
+    return sc
 
 
 def _check_restore(sim, spec, r, bag0, removed, snap0, snap1, bad, ctx, st, restored_locs):
